@@ -89,11 +89,15 @@ package bsupport
 //@   modifies everything
 //@   ghostset nchunks := nchunks + (result != nil ? 1 : 0)
 //@   ghostset nstreams := nstreams
+// a released record is recycled - its length is reset - so it must be counted BEFORE a reference to it is given up: at the
+// counting call no release has happened yet in the round of this record
 //@ func (worker *LogProcessingWorker) onInput(buffer []*base.LogRecord)
 //@   property C19 C12 C11 C05
 //@   flag nosafety noinfer
 //@   requires worker != nil
 //@   modifies everything
+//@   before base.LogInputCounterSet.CountRecordDrop: assert[a-dropped-record-is-counted-before-it-is-released] ncalls("base.LogAllocator.Release") == prev(ncalls("base.LogAllocator.Release"))
+//@   before base.LogInputCounterSet.CountRecordPass: assert[a-passed-record-is-counted-before-it-is-released] ncalls("base.LogAllocator.Release") == prev(ncalls("base.LogAllocator.Release"))
 //@   loop 1: step[every-record-counted-exactly-once-and-released-as-often-as-it-is-referenced]
 //@        (ncalls("base.LogInputCounterSet.CountRecordDrop") == prev(ncalls("base.LogInputCounterSet.CountRecordDrop")) + 1 && ncalls("base.LogInputCounterSet.CountRecordPass") == prev(ncalls("base.LogInputCounterSet.CountRecordPass"))
 //@           && ncalls("base.LogAllocator.Release") == prev(ncalls("base.LogAllocator.Release")) + 1 && ncalls("base.LogSerializer.SerializeRecord") == prev(ncalls("base.LogSerializer.SerializeRecord")))
